@@ -378,7 +378,7 @@ func init() {
 		Level: "model_checking",
 		Rule: "history exploration through the real repl.EvalOne on one persistent eval.State (MaxDepth 60): base histories = every sequence of <=2 (thorough 3) of 12 succeeding inputs (printing, defining and calling printing/cached/recursive functions, closures, counted and list loops, global updates); into each, every placement of one side-effect-free failing input of 15 kinds (language error at top level / in nested calls / in nested loops / in an array literal / wrong arity, Go runtime panic in a function / in a loop / in nested loops, depth overflow at top level and in a function, pre-cancelled context, cancellation inside a function, parse error, error while building print arguments) repeated 1, 2, 9 and 17 times at every position, and every placement of two failing inputs. Oracle: each succeeding input's output, result, errors equal those of the base history without the failing inputs. Non-trivial = every history; distinct by input sequence. One compared input is itself cut off inside its own functions: its error text is compared together with the stack the error carries.",
 		Assume:      []string{"runtime panics injected by the harness extension verif_panic()", "cancellation injected by verif_cancel() and a pre-cancelled context"},
-		QuickCap:    150 * time.Second,
+		QuickCap:    300 * time.Second,
 		ThoroughCap: 20 * time.Minute,
 		HangLimit:   240 * time.Second,
 		Run:         runC10,
